@@ -61,6 +61,7 @@ def run(ctx, rep):
     r2(ctx, rep)
     r3(ctx, rep)
     r8(ctx, rep)
+    r9(ctx, rep)
     r5(ctx, rep)
     r6(ctx, rep)
     r7(ctx, rep)
@@ -489,3 +490,24 @@ def r8(ctx, rep):
                             '(access.Serial._get_targets folded)')
     n = common.bookkeeping(ctx, rep, R8, 'C06.R8', only=('fold_serial_rule',))
     rep.floor('C06.R8', 'serial rule states', n, 50)
+
+
+def r9(ctx, rep):
+    """Branch.append learns a sentence's constants from `Sentence.constants`.  That this is exactly the set of constants
+    occurring in the sentence -- for every sentence class, operands without any constant included -- is the derived-attribute
+    matrix of C15.R2, imported for the `constants` attribute."""
+    from ..core import Report
+    from . import c15
+    R9 = rep.rule('C06.R9', 'what the branch records is what occurs: `constants` of every sentence class is the union of its parts\' constants (the C15.R2 folds, '
+                            'operands without parameters included) -- a constant hidden from this attribute is offered again as new')
+    sub = Report('C15', rep.tier, rep.repo)
+    c15.run(ctx, sub)
+    n = 0
+    for f in sub.findings:
+        if f.rule == 'C15.R2' and '.constants' in f.key:
+            n += 1
+            rep.instance(R9, ok=False, nontrivial=f.key)
+            rep.finding(R9, f.key.replace('C15.', 'C06.R9/C15.', 1), f.where, f.construct, f.msg)
+    for _ in range(max(0, sub.rules.get('C15.R2', {}).get('instances', 0) // 6 - n)):
+        rep.instance(R9, ok=True)
+    rep.consulted |= sub.consulted
